@@ -62,10 +62,11 @@ func (r *Reader) readIloc(b *box) (err error) {
 	// smallest possible entry: id, (construction method), data reference index,
 	// base offset and extent count
 	entrySize := 2 + 2 + int(ilb.baseOffsetSize) + 2
-	// an extent: offset and length
+	// an extent: (index), offset and length
 	extentSize := int(ilb.offsetSize) + int(ilb.lengthSize)
 	if b.flags.version() > 0 { // version 1
 		entrySize += 2
+		extentSize += int(ilb.indexSize)
 	}
 	// The entries are read one at a time: the box may be larger than the buffer.
 	for b.remain >= entrySize {
@@ -102,12 +103,14 @@ func (r *Reader) readIloc(b *box) (err error) {
 		// it that does nothing for the other extents still runs 65535 times per
 		// 6-byte item.)
 		if ent.count > 0 && i+extentSize <= len(buf) {
+			if b.flags.version() > 0 {
+				i += int(ilb.indexSize)
+			}
 			var ol offsetLength
 			// the extent lies at base offset + extent offset
 			ol.offset = ent.baseOffset + uintN(ilb.offsetSize, buf[i:i+int(ilb.offsetSize)])
 			i += int(ilb.offsetSize)
 			ol.length = uintN(ilb.lengthSize, buf[i:i+int(ilb.lengthSize)])
-			i += int(ilb.lengthSize)
 			ent.firstExtent = ol
 		}
 		if optionSpeed == 0 {
@@ -124,7 +127,11 @@ func (r *Reader) readIloc(b *box) (err error) {
 			r.heic.xml.ol = ent.firstExtent
 		}
 
-		if _, err = b.Discard(i); err != nil {
+		// the entry with all its extents
+		if n = entrySize + int(ent.count)*extentSize; n > b.remain {
+			break
+		}
+		if _, err = b.Discard(n); err != nil {
 			break
 		}
 	}
